@@ -99,6 +99,49 @@ def path_weight(P, R, f, out, posv):
     def incs(bid):
         return sum(1 for s in f.block_sites(bid) if s.ev['k'] == 'store' and is_var(s.ev.get('lhs'), posv) and s.ev.get('op') == '++')
 
+    # inner loops (a digit loop): their trip count is bounded by the number of values the controlling variable can
+    # take at the loop test - it changes by a non-zero constant each round, so no value repeats - taken from the
+    # numeric analysis (interval and congruence class)
+    from .. import numeric
+    trips = {}
+    trip_blocks = {}
+    an = None
+    for hb in body:
+        if hb not in f.reach([e.dst for e in f.out[hb] if e.dst in body], cut_blocks=[head]):
+            continue
+        c = f.term_cond(hb)
+        if c is None:
+            continue
+        from ..model import rel as _rel
+        r0 = _rel(c, True)
+        vs = [v for v in vars_in(r0[0])] if isinstance(r0[0], dict) else []
+        if len(vs) != 1:
+            continue
+        v = vs[0]
+        loopb = {x for x in f.reach([hb], cut_blocks=[head]) if hb in f.reach([x], cut_blocks=[head])}
+        steps = [t for t in f.stores() if t.bid in loopb and t.ev['k'] == 'store' and is_var(t.ev.get('lhs'), v)]
+        if not steps or not all(t.ev.get('op') in ('++', '--') or (t.ev.get('op') in ('+=', '-=') and const_of(t.ev.get('rhs')) not in (None, 0)) for t in steps) \
+                or len({(t.ev.get('op') in ('++', '+=')) for t in steps}) != 1:
+            continue
+        if an is None:
+            an = numeric.Analysis(f)
+        te = [e for e in f.out[hb] if e.label == 'true']
+        if not te:
+            continue
+        lo = hi = None
+        for o in an.block_in.get(te[0].dst, []):
+            if v in o.ix:
+                a, b2 = o.bounds(v)
+                lo = a if lo is None else min(lo, a)
+                hi = b2 if hi is None else max(hi, b2)
+        if lo is None or numeric.INF in (hi, -lo if lo is not None else 0) or lo == -numeric.INF:
+            continue
+        k, r = an.cong.get(v, (1, 0))
+        cnt = len([x for x in range(int(lo), int(hi) + 1) if (x - r) % k == 0])
+        if cnt <= 64:
+            trips[hb] = cnt
+            trip_blocks[hb] = loopb
+
     def longest(last_iter):
         import functools
         memo = {}
@@ -106,9 +149,14 @@ def path_weight(P, R, f, out, posv):
         def go(b, stack):
             if b == head:
                 return 0
-            if b in stack:
+            if b in stack and b in trips:
+                # bounded inner loop: allow as many passes through its head as it has admissible values
+                if sum(1 for x in stack_list[0] if x == b) > trips[b]:
+                    return -10 ** 6          # infeasible continuation
+                stack = stack - trip_blocks[b]
+            elif b in stack:
                 return 10 ** 6      # inner cycle: unbounded
-            if b in memo:
+            if b in memo and not trips:
                 return memo[b]
             best = 0
             outs = f.out[b]
@@ -121,9 +169,12 @@ def path_weight(P, R, f, out, posv):
                     r = rules.edge_rel(e)
                     if r and is_var(r[0], lv) and r[1] == '<' and const_of(r[2]) is not None and const_of(r[2]) <= N - 1:
                         continue     # needs ii < N-1: impossible in the last iteration
+                stack_list[0].append(b)
                 best = max(best, go(e.dst, stack | {b}))
+                stack_list[0].pop()
             memo[b] = incs(b) + best
             return memo[b]
+        stack_list = [[]]
         return go(body_entry, frozenset())
     w, wl = longest(False), longest(True)
     total = (N - 1) * w + wl
@@ -234,8 +285,12 @@ def compression(P, R, f, out, posv, lv, body):
 
 
 def digit_thresholds(P, R, f, out, posv):
+    """TAB.1: leading zero digits are suppressed exactly: the digit at bit offset k of a group is printed when the
+    group's value reaches 2^k - written as `part >= (1 << k)` or as `(part >> k) != 0`, k a constant or the loop
+    variable of a digit loop - and the lowest digit always."""
     n = 0
     uncond = 0
+    looped = False
     for s in f.stores():
         if s.ev['k'] != 'store' or s.ev['lhs'].get('k') != 'idx' or not is_var(s.ev['lhs']['base'], out):
             continue
@@ -243,31 +298,38 @@ def digit_thresholds(P, R, f, out, posv):
         if rhs.get('k') != 'idx' or not is_var(rhs['base']) or 'hex' not in rhs['base']['name']:
             continue
         ix = rhs['index']
-        shift = 0
+        shift_e = None
         pv = None
         for x in walk(ix):
-            if x.get('k') == 'bin' and x['op'] == '>>' and is_var(x['l']) and const_of(x['r']) is not None:
-                shift, pv = const_of(x['r']), x['l']['name']
+            if x.get('k') == 'bin' and x['op'] == '>>' and is_var(x['l']):
+                shift_e, pv = x['r'], x['l']['name']
             if x.get('k') == 'bin' and x['op'] == '&' and is_var(x['l']):
                 pv = pv or x['l']['name']
-        # masks: (part >> k) & 15 except the top digit
-        # enclosing if: the store is inside `if (pos < n)`, the digit's own guard is one level up
-        gs = [g for g in f.guards(s.bid) if is_var(g[0], pv) and const_of(g[2]) is not None]
-        lows = []
-        for g in gs:
-            if g[1] == '>=':
-                lows.append(const_of(g[2]))
-            elif g[1] == '>':
-                lows.append(const_of(g[2]) + 1)
-        if shift == 0:
+        gs = f.guards(s.bid)
+        if shift_e is None:
             uncond += 1
+            lows = [g for g in gs if is_var(g[0], pv) and const_of(g[2]) is not None and g[1] in ('>=', '>')]
             R.ob('C12.TAB.1', not lows, s, 'the last hex digit of a group is always printed', key='digit:0')
-        else:
-            n += 1
-            R.ob('C12.TAB.1', lows == [1 << shift] or (bool(lows) and max(lows) == 1 << shift), s,
-                 'the digit %s >> %d is printed exactly when %s >= 0x%x (found lower bound(s) %s)' % (pv, shift, pv, 1 << shift, [hex(x) for x in lows]), key='digit:%d' % shift)
-    R.ob('C12.TAB.1', n == 3 and uncond == 1, f, 'a group prints up to four digits (found %d optional, %d unconditional)' % (n, uncond), key='digits', nontrivial=False)
-    R.floor('C12.TAB.1', 5)
+            continue
+        n += 1
+        k = const_of(shift_e)
+        ok = False
+        found = []
+        for g in gs:
+            l, op, rr = g
+            c = const_of(rr)
+            if is_var(l, pv) and isinstance(c, int) and op in ('>=', '>') and isinstance(k, int):
+                low = c if op == '>=' else c + 1
+                found.append(hex(low))
+                ok = ok or low == (1 << k)
+            if isinstance(l, dict) and l.get('k') == 'bin' and l.get('op') == '>>' and is_var(l.get('l'), pv) and ((op == '!=' and c == 0) or (op == '>' and c == 0) or (op == '>=' and c == 1)):
+                found.append('(%s >> %s) != 0' % (pv, sx(l['r'])))
+                ok = ok or same(l['r'], shift_e)
+        if not isinstance(k, int):
+            looped = True
+        R.ob('C12.TAB.1', ok, s, 'the digit %s >> %s is printed exactly when %s reaches 2^%s (guards found: %s)' % (pv, sx(shift_e), pv, sx(shift_e), found), key='digit:%s' % sx(shift_e))
+    R.ob('C12.TAB.1', uncond == 1 and (n == 3 or (looped and n >= 1)), f, 'a group prints up to four digits (found %d optional site(s)%s, %d unconditional)' % (n, ' in a digit loop' if looped else '', uncond), key='digits', nontrivial=False)
+    R.floor('C12.TAB.1', 3)
 
 
 class _Sym(object):
